@@ -1,11 +1,11 @@
 package ref
 
-// Closure is a function value of the reference evaluator (see eval.go).
+// Closure is a function value of the reference evaluator.
 type Closure struct {
 	Name     string
 	Params   []string
 	Variadic bool
-	Body     *Node
+	Body     []*Node
 	Env      *Frame
-	Text     string
+	Text     string // canonical text of parameters+body: two closures with equal Text are "the same function"
 }
